@@ -9,6 +9,8 @@
 //   - every `range` statement whose ranged expression has a map type, with file, enclosing
 //     function, the ranged expression, an ordinal (so that the identity of a site does not
 //     depend on line numbers) and a purely syntactic classification of the loop body;
+//   - every `range` over a slice that is known to be extended in map-iteration order
+//     (procbuilder.Allopcodes, BasmInstance.matchers/matchersOps), same identity and class;
 //   - every use of the clock (time.Now/Since/Until), of math/rand and crypto/rand, of
 //     temp-file / pid / hostname sources, and every `go` statement.
 //
@@ -71,7 +73,7 @@ type listed struct {
 
 // Site is one row of the generated table.
 type Site struct {
-	Kind  string `json:"kind"`  // "range" | "clock" | "rand" | "go" | "env"
+	Kind  string `json:"kind"`  // "range" | "ordered" | "clock" | "rand" | "go" | "env"
 	File  string `json:"file"`  // path relative to the repo root
 	Func  string `json:"func"`  // enclosing function, "(*T).m" for methods, "<pkg>" at package level
 	Expr  string `json:"expr"`  // ranged expression / callee
@@ -560,6 +562,34 @@ func (w *walker) add(kind, expr string, pos token.Pos, class string) {
 		Line: w.fset.Position(pos).Line})
 }
 
+// orderTainted: slices that other code extends while ranging over a map, so that their element
+// order differs from process to process: procbuilder.Allopcodes (dynamically created opcodes are
+// appended by EventuallyCreateInstruction in the order basm's dynamicalInstructions pass walks the
+// section map) and BasmInstance.matchers / matchersOps (same pass).
+func (w *walker) orderTainted(e ast.Expr) bool {
+	var id *ast.Ident
+	switch x := e.(type) {
+	case *ast.Ident:
+		id = x
+	case *ast.SelectorExpr:
+		id = x.Sel
+	default:
+		return false
+	}
+	v, ok := w.info.ObjectOf(id).(*types.Var)
+	if !ok || v.Pkg() == nil {
+		return false
+	}
+	p := v.Pkg().Path()
+	switch {
+	case strings.HasSuffix(p, "/pkg/procbuilder") && !v.IsField() && v.Name() == "Allopcodes":
+		return true
+	case strings.HasSuffix(p, "/pkg/basm") && v.IsField() && (v.Name() == "matchers" || v.Name() == "matchersOps"):
+		return true
+	}
+	return false
+}
+
 func (w *walker) inspect(n ast.Node) bool {
 	switch x := n.(type) {
 	case *ast.RangeStmt:
@@ -567,6 +597,11 @@ func (w *walker) inspect(n ast.Node) bool {
 			if _, ok := t.Underlying().(*types.Map); ok {
 				c := &classifier{w: w, rs: x}
 				w.add("range", types.ExprString(x.X), x.Pos(), c.classify())
+			} else if w.orderTainted(x.X) {
+				// a slice whose tail is appended in map-iteration order elsewhere: walking it is as
+				// order sensitive as walking the map (kind "ordered")
+				c := &classifier{w: w, rs: x}
+				w.add("ordered", types.ExprString(x.X), x.Pos(), c.classify())
 			}
 		}
 	case *ast.GoStmt:
@@ -679,7 +714,7 @@ func extract(repo string) ([]Site, []string) {
 	kept := sites[:0]
 	for i := range sites {
 		k := sites[i].Kind + "|" + sites[i].File + "|" + sites[i].Func + "|" + sites[i].Expr
-		if sites[i].Kind != "range" && cnt[k] > 0 {
+		if sites[i].Kind != "range" && sites[i].Kind != "ordered" && cnt[k] > 0 {
 			continue // clock / rand / go / env uses are recorded once per function and callee
 		}
 		sites[i].Ord = cnt[k]
@@ -742,7 +777,8 @@ func main() {
 	case "extract":
 		out.Line("/-")
 		out.Line("  REGENERATED by harness/cmd/c07 (tools/props/c07.py) on every run of the C07 check: do not edit.")
-		out.Line("  One row per `range` over a map-typed expression, per use of the clock / math/rand /")
+		out.Line("  One row per `range` over a map-typed expression (and over the order-tainted slices")
+		out.Line("  procbuilder.Allopcodes / BasmInstance.matchers: kind ordered), per use of the clock / math/rand /")
 		out.Line("  crypto/rand / temp-pid-host sources and per `go` statement in the packages that make up")
 		out.Line("  basm, bondgo, neuralbond, bmqsim and bondmachine. Identity of a row = kind, file, enclosing")
 		out.Line("  function, expression, ordinal (line numbers are comments only).")
